@@ -101,6 +101,31 @@ def showSvc (cs : List (String × Nat)) : String :=
   -- `sio` (the framework's uses of the connection object on the service's behalf): how many is not observed
   ",".intercalate ((cs.filter (·.2 > 0)).map fun c => if c.1 == "sio" then "sio=~/1/1" else s!"{c.1}={c.2}/1/1")
 
+/-- `stop`: the stopping piece runs; how many of the queued closures still run is up to the loop's select ("~");
+the k sessions were added before the stop; nothing runs after it (no `srem`).  The `tn` one-shot timers and the
+repeating timer the piece armed become due on a STOPPED manager: what `TimerStop.run` leaves in `ran` for manager 0
+(nothing: `Props.C04.stopped_mgr_runs_nothing`) is the number of `tmr` entries. -/
+def stopOp (s : St) (ws : List String) (tn : Nat) : St × String :=
+  match kv ws "who", kvNat ws "q", kvNat ws "ses" with
+  | some who, some q, some k =>
+    if !s.started || q > 400 || k > 40 || (who != "foreign" && who != "loop") then (s, "bad-op")
+    else
+      let armed := tn + b2n (tn > 2)
+      let ops : List Cell2v.TimerStop.Op :=
+        (List.range armed).map (fun c => .base (.arm 0 c)) ++ [.stopMgr 0] ++
+        (List.range armed).flatMap (fun a => [.base (.expire a), .base (.doNext 0)])
+      let ran := ((Cell2v.TimerStop.run {} ops).base.ran.filter (·.1 == 0)).length
+      ({ s with started := false },
+        "ok A:post=~/1/1" ++ (if ran > 0 then s!",tmr={ran}/1/1" else "") ++ (if k > 0 then s!",sadd={k}/1/1,sio=~/1/1" else "") ++ " B:")
+  | _, _, _ => (s, "bad-op")
+
+/-- the completion callbacks of a list of requests according to the loop model (`ReqDone.sched` run by `Loop.runL`):
+how many ran and on which threads ("1" = the consumer only; `Props.C04.request_completion_on_loop`: always) -/
+def relayDone (fs : List Cell2v.ReqDone.Fate) : Option (Nat × String) :=
+  (runL 1 false init (Cell2v.ReqDone.sched 0 fs)).map fun st =>
+    let starts := st.trace.filterMap fun e => match e with | .start w it => if it > 0 then some w else none | _ => none
+    (starts.length, if starts.all (· == Thread.consumer) then "1" else "2")
+
 def step (s : St) (line : String) : St × String :=
   let ws := words line
   match ws with
@@ -166,14 +191,27 @@ def step (s : St) (line : String) : St × String :=
     else if m == "chan=0" then ({ s with useChan := false }, "ok A:post=1/1/1 B:post=1/1/1")
     else if m == "chan=1" then ({ s with useChan := true }, "ok A:post=1/1/1 B:post=1/1/1")
     else (s, "bad-op")
-  | ["stop", _, _, _] =>
-    match kv ws "who", kvNat ws "q", kvNat ws "ses" with
-    | some who, some q, some k =>
-      if !s.started || q > 400 || k > 40 || (who != "foreign" && who != "loop") then (s, "bad-op")
+  | ["stop", _, _, _] => stopOp s ws 0
+  | ["stop", _, _, _, _] =>
+    -- `tmr=n`: n one-shot timers (and a repeating one) of A become due on the stopped manager
+    match numKV ws "tmr" with
+    | some tn => if tn > 60 then (s, "bad-op") else stopOp s ws tn
+    | none => (s, "bad-op")
+  | ["relay", _, _, _] =>
+    -- n requests of A through an intermediary actor on to B (`peer`), on to a pid that does not exist (`dead`),
+    -- or straight to that pid (`direct`): answered by B, or completed by the 30 s timeout — on A's goroutine
+    match kv ws "to", numKV ws "n", numKV ws "busy" with
+    | some to, some n, some busy =>
+      if !s.started || n < 1 || n > 40 || busy > 1 || (to != "dead" && to != "peer" && to != "direct") then (s, "bad-op")
       else
-        -- the stopping piece runs; how many of the queued closures still run is up to the loop's select ("~");
-        -- the k sessions were added before the stop; nothing runs after it (no `srem`)
-        ({ s with started := false }, "ok A:post=~/1/1" ++ (if k > 0 then s!",sadd={k}/1/1,sio=~/1/1" else "") ++ " B:")
+        -- what becomes of the n requests: answered by B's goroutine (1), dead letter on the intermediary's goroutine (2)
+        -- resp. no answer at all, then the expiry scan enqueued by a timer goroutine (3)
+        let fate : Cell2v.ReqDone.Fate := if to == "peer" then .answered 1 else if to == "dead" then .deadLetter 2 3 else .silent 3
+        match relayDone ((List.range n).map fun _ => fate) with
+        | none => (s, "bad-op")
+        | some (done, gids) =>
+          let kind := if to == "peer" then "rsp" else "tmo"
+          (s, s!"ok A:post=1/1/1,{kind}={done}/{gids}/1 B:" ++ (if to == "peer" then showSvc [("req", n)] else ""))
     | _, _, _ => (s, "bad-op")
   | _ => (s, "bad-op")
 
